@@ -10,14 +10,16 @@ GInit == Init /\ hist = <<>>
 GNext ==
   \/ \E p \in Callers :
        \/ Call(p) /\ H("Call", <<p>>)
+       \/ SEnter(p) /\ H("SEnter", <<p>>)
        \/ Cancel(p) /\ H("Cancel", <<p>>)
        \/ \E br \in {"closed", "next"} : SCheck(p, br) /\ H("SCheck", <<p, br>>)
-       \/ \E br \in {"send", "closed", "next"} : SFast(p, br) /\ H("SFast", <<p, br>>)
+       \/ \E br \in {"send", "next"} : SFast(p, br) /\ H("SFast", <<p, br>>)
        \/ \E br \in {"send", "ctx", "closed"} : SSlow(p, br) /\ H("SSlow", <<p, br>>)
   \/ \E br \in {"in", "done"} : WSelect(br) /\ H("WSelect", <<br>>)
   \/ \E br \in {"recv", "empty"} : WDrain(br) /\ H("WDrain", <<br>>)
   \/ \E ok \in BOOLEAN : WFlush(ok) /\ H("WFlush", <<IF ok THEN "TRUE" ELSE "FALSE">>)
   \/ XClose /\ H("XClose", <<>>)
+  \/ XStop /\ H("XStop", <<>>)
   \/ XWait /\ H("XWait", <<>>)
   \/ (Quiescent /\ Len(hist) < Depth /\ PrintT(<<"BEHAVIOUR", ToJson(hist)>>) /\ hist' = hist \o [i \in 1..Depth |-> [a |-> "pad", args |-> <<>>]] /\ UNCHANGED vars)
 GSpec == GInit /\ [][GNext]_<<vars, hist>>
